@@ -747,6 +747,11 @@ func checkC04(c *Ctx) Meta {
 	checkRekeyAllKeystores(c, "C04-REKEY")
 	c.Rule("C04-RAND", "key material is complete: every read of randomness into a key or salt in the snacl/keystore packages is a complete read (io.ReadFull / crypto/rand.Read), never a bare Reader.Read whose short count would leave the tail of the key zero", 3)
 	c04Rand(c)
+	// the lock discipline of the wallet (C14) is a premise here: the passphrase-inequality checks and the re-key they guard are one critical section; run under this property's name
+	c.pushAlias("C14-", "C04-LOCK-")
+	checkC14(c)
+	c.popAlias()
+
 	return Meta{
 		Explanation: "An information-flow policy evaluated on backward slices: sources are named from the repository (passphrase/seed parameters of exported entry points and request fields, key-object types, generator calls, plaintext of private-hierarchy Decrypt), the slice is cut at Encrypt and at the public-key/hash declassifiers, parameters of helpers are resolved at every call site and callee results are followed (bounded depth 5). Sinks: every Bucket.Put value, every log argument, every formatted message, every keystore-file field, API file write and response field. Plus the key-hierarchy rule for every Encrypt of a secret and a use-after-Zero typestate on encrypting keys.",
 		NotDecided:  "that ciphertext hides plaintext; bytes leveldb itself writes beyond what Put receives; flows through reflection or the chain library; secrets revealed by error values of external callees (assumed label-free).",
